@@ -446,6 +446,7 @@ def run(ck):
     ck.configs.add("K1")
     from .. import guards as _gfe
     _gfe.fast_loop_epilogue(ck, P)
+    fast_decisions(ck, P)
     from .. import linear as _lin
     ck.floor("SIB/same-terms-same-threshold", _lin.same_threshold(ck, P, [f for f in sorted(P.fns.values(), key=lambda f: f.path) if f.path.startswith(Z + "inflate::")]), 1)
     ck.floor("PAIR/second-level-bits", _lin.second_level_bits(ck, P, [f for f in sorted(P.fns.values(), key=lambda f: f.path) if f.path.startswith(Z + "inflate::")]), 3)
@@ -494,3 +495,28 @@ def run(ck):
 # session 5 (round 9, D24)
 EXPLANATION = EXPLANATION + " " + (
     "SIB/same-terms-same-threshold, PAIR/second-level-bits and CUT/fast-loop-epilogue are evaluated over inflateBack's decoder copies as well.")
+
+
+def fast_decisions(ck, P, R="SIB/fast~fast_back"):
+    """inflate_fast_back is a copy of the fast loop of inflate with the window replaced by the caller's output buffer.  The
+    decisions that are not about the window or about how much input is left - code classes, length and distance tests, the
+    comparison of a distance with the bytes written - are the same in both: every such comparison of the fast loop has a
+    counterpart in the copy."""
+    from . import c04 as _c04
+    a = P.fn(decoders.FAST)
+    b = P.fn(FAST_BACK)
+    if not (ck.anchor("fn inflate_fast_help_impl", a) and ck.anchor("fn inflate_fast_back", b)):
+        return
+    ck.use_fn(a)
+    ck.use_fn(b)
+    ca = _c04._arm_cmps(a, a.live)
+    cb = _c04._arm_cmps(b, b.live)
+
+    def windowish(x):
+        return any(c.startswith("Window::") or "bytes_remaining" in c for c in x[1])
+    want = sorted((x for x in ca if not windowish(x)), key=str)
+    missing = [x for x in want if x not in cb]
+    ck.decide(not missing, R, "decisions", "every window-independent decision of the fast loop has a counterpart (%d)" % len(want),
+              "inflate_fast_back no longer makes the decision(s) %s of inflate's fast loop: inflateBack decodes a match or a code class "
+              "differently from inflate for the same bits" % [(m[0], m[1], m[2], m[3]) for m in missing][:3], where(b))
+    ck.floor(R, len(want), 8)
